@@ -273,6 +273,13 @@ func cmdCheck(args []string) int {
 			continue
 		}
 		f := cf.f
+		if f.EngineOnly {
+			nreplay++
+			cf.status = "violation"
+			cf.native = "engine-observable fact (locks held by the calling goroutine): not checkable natively"
+			cf.replay = writeReplay(prop, nreplay, cf.spec, f, cf.native)
+			continue
+		}
 		nb := bin
 		if f.Kind == "RACE" {
 			nb = raceBin
